@@ -138,6 +138,10 @@ func variant(t *rapid.T, raw []byte) ([]byte, string) {
 		// (and whether it compiles) is the same as without it
 		p += ",specialname=NoSuchFieldInAnyExampleSchema"
 	}
+	if rapid.IntRange(0, 3).Draw(t, "apicase") == 0 {
+		// option values are matched case-insensitively, so this is the same request in another spelling
+		p = strings.Replace(p, "apiversion=v2", "apiversion=V2", 1)
+	}
 	req.Parameter = proto.String(p)
 	b, err := proto.MarshalOptions{Deterministic: true}.Marshal(req)
 	if err != nil {
@@ -270,7 +274,7 @@ func runC16(t *rapid.T, w *rep.Worker, tt *testing.T) {
 			first, firstDesc = got, desc
 			byProduct(w, tg.name, params, got)
 			// (the extra special names of some variants do not match the checked-in message types, so those are not compiled)
-			if w.Pending() == "" && !strings.Contains(params, "specialname=Name") && ((strings.HasPrefix(tg.name, "multi-") || tg.goreq != nil) && rapid.Bool().Draw(t, "compilemulti") || rapid.IntRange(0, 15).Draw(t, "compile") == 0) {
+			if w.Pending() == "" && !strings.Contains(params, "specialname=Name") && ((strings.HasPrefix(tg.name, "multi-") || tg.goreq != nil) && rapid.Bool().Draw(t, "compilemulti") || strings.Contains(params, "apiversion=V2") && rapid.IntRange(0, 3).Draw(t, "compileapicase") == 0 || rapid.IntRange(0, 15).Draw(t, "compile") == 0) {
 				compileCheck(w, tt, tg, params, got)
 			}
 			continue
